@@ -14,21 +14,24 @@ CONF = dict(
                  'crypto/rand is an input (the nonce / unique identifier read from it is scripted)'],
     trusted=['modelled, not verified: github.com/miscreant/miscreant.go AES-SIV-CMAC (its answers are recomputed by the harness and passed to the model, which checks that its query is the one answered)',
              'crypto/tls ExportKeyingMaterial',
-             'reflect is used to read the unexported position of the authenticator from nts.Packet'],
+             'reflect is used to read the unexported position of the authenticator from nts.Packet',
+             'hooks net/ntske/hooks_verif.go: Fetcher.VerifData (read the client\'s cookie store), Provider.VerifAge (age the key provider by a day)'],
     technique=('Coq proof over a Gallina model of nts.go/cookies.go with a symbolic AEAD: acceptance implies the ciphertext is the seal under the receiver\'s key over exactly '
                'the bytes before the authenticator; decoder/encoder round trip; tamper, key, direction, identifier and cookie corollaries; model tied to the code by '
                'differential execution on mutated honest packets, with the property oracle evaluated on the implementation\'s accept/reject decisions'),
     level_text=('Theorems hold for all keys, nonces, identifiers, headers, cookies and all byte strings presented to a receiver (no sampling), relative to the symbolic AEAD. '
-                'The correspondence run drives the real encoder, decoder, ProcessRequest/ProcessResponse, the cookie functions, ExportKeys over real TLS and the real IP listener.'),
-    level_note='Crypto is symbolic (ideal AEAD); real AES-SIV is as good as its cryptographic assumption. Completeness is proved at byte level (C10_complete: DecodePacket after EncodePacket yields exactly the encoder\'s nonce, ciphertext and authenticator position, and NewRequestPacket/NewResponsePacket output is accepted under the sealing key; C10_complete_encoder for any fields within 1024 bytes) and additionally enforced by the run-time oracle. A client comparing with an identifier whose length is not a multiple of 4 rejects the padded echo (C10_complete_needs_padded_uid; the project\'s identifiers have 32 bytes). SCION listener not driven (same nts/ntske calls as the IP listener). No axioms.',
+                'The correspondence run drives the real encoder, decoder, ProcessRequest/ProcessResponse, the cookie functions, ExportKeys over real TLS and the real IP and SCION listeners.'),
+    level_note='Crypto is symbolic (ideal AEAD); real AES-SIV is as good as its cryptographic assumption. Completeness is proved at byte level (C10_complete: DecodePacket after EncodePacket yields exactly the encoder\'s nonce, ciphertext and authenticator position, and NewRequestPacket/NewResponsePacket output is accepted under the sealing key; C10_complete_encoder for any fields within 1024 bytes) and additionally enforced by the run-time oracle. A client comparing with an identifier whose length is not a multiple of 4 rejects the padded echo (C10_complete_needs_padded_uid; the project\'s identifiers have 32 bytes). Both listeners are driven (srv.ip, srv.scion; the SCION one with plain SCION/UDP packets on an empty path, without SPAO). A listener that stops answering its sentinel is a failing case and the harness exits non-zero. No axioms.',
     explanation=('Case kinds: nts.req / nts.resp = real DecodePacket + ProcessRequest / ProcessResponse on honest and mutated packets (decode result, authenticator position, '
                  'error class, cookies kept are compared with the model; the oracle C10_packet_ok is evaluated on accept/reject); nts.encode / nts.newreq / nts.newresp = real encoder '
                  'byte for byte incl. the 1024-byte truncation/panic boundaries; ck.seal / ck.open / ck.hist / ck.tlv = cookie functions incl. multi-cookie histories (results read after '
-                 'later openings); ke.export = ExportKeys on both ends of a real TLS 1.3 handshake; srv.ip = the real IP listener with a real Provider, reply/no reply by sentinel, reply '
-                 'verified with ProcessResponse. Completeness of the encoder/decoder pair is proved in Coq through the byte encoding (Proofs/NtsAuthComplete.v: EncodePacket = wire format, DecodePacket of the wire format, '
+                 'later openings); ke.export = ExportKeys on both ends of a real TLS 1.3 handshake; srv.ip / srv.scion = the real IP and SCION listeners with one real Provider (rotated once per round through the VerifAge hook, so requests arrive with cookies under older, still valid and expired keys), '
+                 'the same request families as the receivers get (bit flips, every field type/length, fields inserted/deleted/swapped/duplicated, splices, wrong key/direction/key id), reply/no reply by sentinel, reply '
+                 'verified with ProcessResponse, every re-issued cookie opened with the provider key it names (must be the current key and yield exactly the session\'s algorithm and keys), and a follow-up request with a re-issued cookie that must be answered; '
+                 'after every rejected nts.resp case the (fresh) client Fetcher is read through VerifData and must hold nothing. Completeness of the encoder/decoder pair is proved in Coq through the byte encoding (Proofs/NtsAuthComplete.v: EncodePacket = wire format, DecodePacket of the wire format, '
                  'NewResponsePacket plaintext walked by authenticate; C10_complete, C10_complete_encoder) and also enforced by the oracle on every run (tag complete). Observation: AES-SIV never uses the CTR half of the key when the plaintext is empty (every NTS '
                  'request), so a C2S key differing only in its second half verifies the same request; wrong-key cases for requests therefore differ in the MAC half.'),
     timeout_quick=900,
     timeout_thorough=3000,
-    min_cases={'ck.hist': 45, 'ck.open': 747, 'ck.seal': 76, 'ck.tlv': 493, 'ke.export': 1, 'nts.encode': 138, 'nts.newreq': 38, 'nts.newresp': 39, 'nts.req': 3040, 'nts.resp': 1917, 'srv.ip': 541},
+    min_cases={'ck.hist': 45, 'ck.open': 747, 'ck.seal': 76, 'ck.tlv': 493, 'ke.export': 1, 'nts.encode': 138, 'nts.newreq': 38, 'nts.newresp': 39, 'nts.req': 3040, 'nts.resp': 1917, 'srv.ip': 541, 'srv.scion': 541},
 )
